@@ -795,12 +795,19 @@ func main() {
 	repo := flag.String("repo", "", "root of the gtools checkout (default: where harness/go.work takes the set module from)")
 	out := flag.String("out", "", "output file (default: the spec's, relative to the harness directory)")
 	flag.Parse()
+	if *repo == "" {
+		*repo = repoFromWorkspace("go.work")
+	}
+	if *which == "clonebase" {
+		if *out == "" {
+			*out = "../lean/Generated/GoCloneBase.lean"
+		}
+		runCloneBase(*repo, *out)
+		return
+	}
 	sp := specs[*which]
 	if sp == nil {
 		fail("unknown -spec %q", *which)
-	}
-	if *repo == "" {
-		*repo = repoFromWorkspace("go.work")
 	}
 	if *out == "" {
 		*out = sp.out
